@@ -531,6 +531,9 @@ func c39script(pattern, term string, procs, n int) (children []seam.Behaviour, d
 	case "replacement": // the first replacement dies too
 		children[0].ExitAfter, children[procs].ExitAfter = time.Second, time.Second
 		exits = 2
+	case "instant": // the first child dies as soon as it is started (while the fleet is still being spawned)
+		children[0].ExitAfter, children[0].ExitErr = time.Nanosecond, c39errCrash
+		exits = 1
 	case "three": // both initial children crash (staggered), the first replacement dies too
 		children[0].ExitAfter, children[1].ExitAfter = time.Second, 1500*time.Millisecond
 		children[procs].ExitAfter, children[procs].ExitErr = time.Second, c39errCrash
@@ -649,6 +652,8 @@ func c39scenarios(r *vrt.R) []*c39sc {
 	}
 	for _, ri := range ris {
 		add(c39mk("", 2, 0, ri, "exit-in-grace", "ignore", nil))
+		add(c39mk("", 2, 0, ri, "instant", "ignore", nil))
+		add(c39mk("", 2, 1, ri, "instant", "exit", nil))
 	}
 	// G: the kernel may recycle the pid of a reaped child (environment deviation)
 	for _, ri := range ris {
@@ -684,6 +689,7 @@ type c39watchObs struct {
 	calledAt     time.Duration
 	blockedUntil time.Duration
 	diedAt       time.Duration
+	startedAt    time.Duration
 	ended        bool
 	done         bool
 }
@@ -700,11 +706,13 @@ func c39watchBody(dieAt time.Duration, sleeps int) func() {
 			o.calls++
 			o.calledAt, o.blockedUntil = c39now(), time.Duration(mcrt.BlockedUntil())
 		}
+		master := seam.Getppid() // as listenAsChild does: read before the watcher goroutine is started
 		mcrt.GoNamed("watcher", func() {
 			if dieAt <= 0 {
 				mcrt.Daemon() // polls for ever, by design
 			}
-			p.watchMaster(seam.Getppid())
+			o.startedAt = c39now()
+			p.watchMaster(master)
 			o.ended = true
 		})
 		if dieAt > 0 {
@@ -736,10 +744,11 @@ func c39watchCheck(dieAt time.Duration) func(x *mcrt.Exec) (string, string, stri
 			return cls, "prefork-child-reports-master-death-while-master-alive", fmt.Sprintf("OnMasterDeath called at %v, the master died at %v", o.calledAt, o.diedAt)
 		}
 		if o.calls != 1 || !o.ended {
-			return cls, fmt.Sprintf("prefork-child-misses-master-death[calls=%d]", o.calls), fmt.Sprintf("the master died at %v; %v later OnMasterDeath has been called %d times, watcher ended: %v", o.diedAt, c39now(), o.calls, o.ended)
+			return cls, fmt.Sprintf("prefork-child-misses-master-death[calls=%d]", o.calls), fmt.Sprintf("the master died at %v; %v later OnMasterDeath has been called %d times, watcher ended: %v", o.diedAt, x.Now-o.diedAt, o.calls, o.ended)
 		}
-		if o.blockedUntil > o.diedAt+masterPollInterval {
-			return cls, "prefork-child-notices-master-death-late", fmt.Sprintf("the master died at %v, the watcher was still waiting at %v (poll interval %v)", o.diedAt, o.blockedUntil, masterPollInterval)
+		from := max(o.diedAt, o.startedAt) // a watcher that is scheduled late starts polling late: that is scheduling slack
+		if o.blockedUntil > from+masterPollInterval {
+			return cls, "prefork-child-notices-master-death-late", fmt.Sprintf("the master died at %v, the watcher (polling since %v) was still waiting at %v (poll interval %v)", o.diedAt, o.startedAt, o.blockedUntil, masterPollInterval)
 		}
 		if x.Out.LiveAtEnd > 0 {
 			return cls, "prefork-watcher-thread-leaks", fmt.Sprintf("%d thread(s) left after OnMasterDeath", x.Out.LiveAtEnd)
@@ -752,16 +761,18 @@ func TestVerif_C39(t *testing.T) {
 	r := vrt.Begin(t, "C39", "model_checking")
 	defer r.End()
 	r.Rule("the real prefork master (ListenAndServe -> prefork, startWait goroutines, shutdownChildren) runs against a fake process table: GOMAXPROCS 1-2 (thorough: 3), RecoverThreshold 0-2, RecoverInterval 0/1s, " +
-		"ShutdownGracePeriod 1s (and the 5s default); children scripted to crash at virtual instants (alone, together, staggered, in a loop, during the grace period), to exit on SIGTERM, ignore it, or exit 0.5s/2s after it; " +
-		"Start failing at the i-th spawn, OnChildSpawn failing at its i-th call, OnMasterReady failing, a CommandProducer returning an error / nil / an unstarted command, listener set-up failing, pid recycling; " +
-		"all schedules, select choices, timer orders (timer-first) and environment answers within the deviation bound. Oracle per execution: never more than GOMAXPROCS children alive (every step); at quiescence without a " +
-		"return exactly GOMAXPROCS children alive and no zombie; a replacement is started only for an exited child and not before exit+RecoverInterval; at most RecoverThreshold restarts; ErrOverRecovery only after more than " +
-		"RecoverThreshold exits and after RecoverThreshold restarts; on every return path (over-recovery, spawn failure, hook error, producer fault, listener error) each started child has exited, was reaped (Wait returned) " +
-		"before the return, was killed only after SIGTERM + grace period; the returned error is the injected one; no master thread is left afterwards; quiescent without returning although a return is due = hang. " +
-		"Non-trivial: executions with >=1 deviation")
+		"ShutdownGracePeriod 1s (and the 5s default); children scripted to crash at virtual instants (alone, together, staggered, replacement crashing too, three in a row, crash loop, during the grace period), to exit on SIGTERM, " +
+		"ignore it, or exit 0.5s/2s after it; Start failing at the i-th spawn, OnChildSpawn failing or panicking at its i-th call, OnMasterReady failing, a CommandProducer returning an error / nil / an unstarted command, " +
+		"listener set-up failing, Reuseport, the kernel recycling the pid of a reaped child; all schedules, select choices, timer orders (timer-first) and environment answers within the deviation bound. Oracle per execution: " +
+		"never more than GOMAXPROCS children alive (every step); at quiescence without a return exactly GOMAXPROCS children alive and no zombie; a replacement is started only for an exited child and not before " +
+		"exit+RecoverInterval; at most RecoverThreshold restarts; ErrOverRecovery only after more than RecoverThreshold exits and after RecoverThreshold restarts; on every way out (over-recovery, spawn failure, hook error, " +
+		"hook panic, producer fault, listener error) each started child has exited, was reaped (Wait returned) before the return, was killed only after SIGTERM + grace period; the returned error is the injected one; no " +
+		"master thread is left afterwards; quiescent without returning although a return is due = hang (classified: child never signalled / never killed). Child side (3 small scenarios): watchMaster calls OnMasterDeath " +
+		"exactly once, only after the parent pid changed, within one poll interval. Non-trivial: executions with >=1 deviation")
 	r.Assume("mcrt shim semantics (litmus-tested)", "mcgen rewriting incl. the seam substitution exec.Cmd/net.ListenTCP/net.TCPListener/runtime.GOMAXPROCS/os.Getppid -> engine/seamprefork",
-		"fake children: SIGKILL and an obeyed SIGTERM take effect at once; Signal/Kill/Start are atomic steps of the calling thread; a reaped pid answers os.ErrProcessDone",
-		"hooks are instrumented stubs (OnChildSpawn yields once)", "context.WithCancel is the real one (cancel is not a scheduling point)")
+		"fake children: SIGKILL and an obeyed SIGTERM take effect at once; Signal/Kill/Start are atomic steps of the calling thread; a reaped pid answers os.ErrProcessDone; a pid is free for reuse once Wait returned",
+		"hooks are instrumented stubs", "context.WithCancel is the real one (cancel is not a scheduling point)",
+		"this version of prefork has no external shutdown (no signal handling, the supervision loop only ends through the listed ways out), so none is modelled")
 	bound := 2 // thorough: +1 for GOMAXPROCS=1, the crash-loop scripts for GOMAXPROCS=2 and a GOMAXPROCS=3 fleet are added
 	var scs []mcx.Scenario
 	only := os.Getenv("VERIF_C39_ONLY") // development aid: restrict to scenarios whose name contains the value
